@@ -79,6 +79,11 @@ fn main() {
             Ok((r, w)) => world_info(&r, w),
             Err(e) => json!({"ok": false, "stage": "harness", "error": format!("loading WIT: {e:#}")}),
         },
+        "decode-check" => match (std::fs::read(args.str("bytes", "")), load_world(&args.str("wit", ""), args.get("world"))) {
+            (Ok(b), Ok((r, w))) => decode_check(&b, &r, w),
+            (Err(e), _) => json!({"ok": false, "stage": "harness", "error": format!("reading bytes: {e}")}),
+            (_, Err(e)) => json!({"ok": false, "stage": "harness", "error": format!("loading WIT: {e:#}")}),
+        },
         "expected" => match load_world(&args.str("wit", ""), args.get("world")) {
             Ok((r, w)) => {
                 let e = expected::Expected::compute(&r, w);
